@@ -69,13 +69,21 @@ type PFCPConn struct {
 
 	metrics.InstrumentPFCP
 
-	hbReset     chan struct{}
+	hbReset chan struct{}
+	// hbMu guards hbCtxCancel: the heartbeat monitor is (re)started on a goroutine of its
+	// own for every accepted association setup, and stopped by Shutdown()
+	hbMu        sync.Mutex
 	hbCtxCancel context.CancelFunc
+
+	// remoteMu guards nodeID.remote and ts.remote, which are set by the association
+	// setup handlers and read when messages are sent from other goroutines
+	remoteMu sync.RWMutex
 
 	pendingReqs sync.Map
 }
 
 func (pConn *PFCPConn) startHeartBeatMonitor() {
+	pConn.hbMu.Lock()
 	// Stop HeartBeat routine if already running
 	if pConn.hbCtxCancel != nil {
 		pConn.hbCtxCancel()
@@ -84,6 +92,7 @@ func (pConn *PFCPConn) startHeartBeatMonitor() {
 
 	hbCtx, hbCancel := context.WithCancel(pConn.ctx)
 	pConn.hbCtxCancel = hbCancel
+	pConn.hbMu.Unlock()
 
 	logger.PfcpLog.With("interval", pConn.upf.hbInterval).Infoln("starting Heartbeat timer")
 
@@ -158,6 +167,14 @@ func (node *PFCPNode) NewPFCPConn(lAddr, rAddr string, buf []byte) *PFCPConn {
 	go p.Serve()
 
 	return p
+}
+
+// remoteNodeID returns the Node ID the peer gave in its association setup message.
+func (pConn *PFCPConn) remoteNodeID() string {
+	pConn.remoteMu.RLock()
+	defer pConn.remoteMu.RUnlock()
+
+	return pConn.nodeID.remote
 }
 
 func (pConn *PFCPConn) setLocalNodeID(id string) {
@@ -265,10 +282,12 @@ func (pConn *PFCPConn) Shutdown() {
 func (pConn *PFCPConn) doShutdown() {
 	close(pConn.shutdown)
 
+	pConn.hbMu.Lock()
 	if pConn.hbCtxCancel != nil {
 		pConn.hbCtxCancel()
 		pConn.hbCtxCancel = nil
 	}
+	pConn.hbMu.Unlock()
 
 	// Wait for a message that is being handled: it may still create or modify
 	// a session, which would otherwise survive the cleanup below.
